@@ -2084,6 +2084,10 @@ func (c *BytecodeCompiler) compileBreakExpressionNode(node *ast.BreakExpressionN
 		return
 	}
 
+	// the jump goes through the `finally` blocks straight past the loop,
+	// so the upvalues of the scopes it leaves have to be closed here
+	c.leaveScopeOnBreak(location.StartPos.Line, labelName)
+
 	jumpOffsetId := c.emitLoadValue(value.Undefined, location)
 	c.offsetValueIds = append(c.offsetValueIds, jumpOffsetId)
 	c.addLoopJump(labelName, bytecodeBreakFinallyLoopJump, jumpOffsetId, location)
@@ -2092,24 +2096,25 @@ func (c *BytecodeCompiler) compileBreakExpressionNode(node *ast.BreakExpressionN
 	c.emit(location.StartPos.Line, bytecode.JUMP_TO_FINALLY)
 }
 
+// Close the upvalues of every scope that `continue` leaves.
+// That includes the scope of the loop itself: it holds the loop variable
+// and (in `while`, `fornum` and `for in` loops) the locals of the loop body,
+// the next iteration creates new instances of them.
 func (c *BytecodeCompiler) leaveScopeOnContinue(line int, label string) {
-	if label == "" {
-		for i := range c.scopes {
-			scope := c.scopes[len(c.scopes)-i-1]
+	for i := range c.scopes {
+		scope := c.scopes[len(c.scopes)-i-1]
+		c.closeUpvaluesInScope(line, scope)
+
+		if label == "" {
 			if scope.typ == loopBytecodeScopeType {
 				break
 			}
-			c.closeUpvaluesInScope(line, scope)
+			continue
 		}
-		return
-	}
 
-	for i := range c.scopes {
-		scope := c.scopes[len(c.scopes)-i-1]
 		if scope.label == label {
 			break
 		}
-		c.closeUpvaluesInScope(line, scope)
 	}
 }
 
@@ -2149,6 +2154,10 @@ func (c *BytecodeCompiler) compileContinueExpressionNode(node *ast.ContinueExpre
 		c.addLoopJumpTo(loop, bytecodeContinueLoopJump, continueJumpOffset)
 		return
 	}
+
+	// the jump goes through the `finally` blocks straight to the next iteration,
+	// so the upvalues of the scopes it leaves have to be closed here
+	c.leaveScopeOnContinue(location.StartPos.Line, labelName)
 
 	jumpOffsetId := c.emitLoadValue(value.Undefined, location)
 	c.offsetValueIds = append(c.offsetValueIds, jumpOffsetId)
@@ -2902,6 +2911,8 @@ func (c *BytecodeCompiler) compileForIn(
 	if !collectionLiteral {
 		c.emit(location.EndPos.Line, bytecode.POP)
 	}
+	// the next iteration gets new instances of the loop variable and the locals of the body
+	c.closeUpvaluesInCurrentScope(location.EndPos.Line)
 	if c.additionalAbortChecks {
 		c.emit(location.EndPos.Line, bytecode.CHECK_ABORT)
 	}
